@@ -27,6 +27,7 @@ META = {
     "assumptions": ["float corner cases of log(0) are out of scope"],
 }
 META["explanation"] += ' Also COPY and the other methods that assign part of (arrival count, W, next accepted arrival).'
+META["explanation"] += ' Round 5: DEP-C06 NOMUT and DEP-C15 DEFAULTS storage (nobody else changes what the reservoir holds); comparisons of a drawn position with a length are not decided. HAZARD: constructs that do not mean what they look like, met in the analysed code (defaults evaluated once, class-level containers changed through self, dict.fromkeys with a shared mutable value, late-binding lambdas, truth value of objects that define __len__) are reported by every check.'
 MIN_INSTANCES = {"FORMULA": 4, "DRAW": 1, "SAME": 1}
 
 CLS = "UniformReservoirStorage"
